@@ -596,3 +596,119 @@ theorem complArgs : (as : List Expr) → SA as
   | [] => fun _ _ _ h => absurd rfl h
   | a :: as => SA_cons (compl a).E (complArgs as)
 end
+
+/-! ## The fuel of `parseTokensE` is enough -/
+
+theorem parenIf_length (c : Bool) (ts : List ETok) : ts.length ≤ (parenIf c ts).length := by
+  unfold parenIf; split <;> simp <;> omega
+
+structure Bound (e : Expr) : Prop where
+  n : e.need ≤ 8 * (e.toks 3).length
+  c : ∀ lvl, e.cneed ≤ 8 * (e.toks lvl).length
+
+theorem Bound.cost {e : Expr} (h : Bound e) (lvl : Nat) : cost e lvl ≤ 8 * (e.toks lvl).length := by
+  unfold _root_.cost
+  cases ho : openAt e lvl with
+  | true => simpa using h.c lvl
+  | false => simp only [Bool.false_eq_true, if_false]; rw [toks_closed ho]; exact h.n
+
+theorem Bound.ofE {e : Expr} (hl : e.isELevel = true) (hn : e.need + 2 ≤ 8 * (e.toks 3).length) (hc : e.cneed = e.need + 2) :
+    Bound e := ⟨by omega, fun lvl => by rw [toks_of_ELevel hl lvl]; omega⟩
+
+mutual
+theorem bound : (e : Expr) → Bound e
+  | .lit v => Bound.ofE rfl (by rw [Expr.need, Expr.toks]; simp) (by rw [Expr.cneed, Expr.need])
+  | .var x => Bound.ofE rfl (by rw [Expr.need, Expr.toks]; simp) (by rw [Expr.cneed, Expr.need])
+  | .prop e n => Bound.ofE rfl (by have := (bound e).n; rw [Expr.need, Expr.toks]; simp; omega) (by rw [Expr.cneed, Expr.need])
+  | .index e i => Bound.ofE rfl (by have := (bound e).n; have := (bound i).n; rw [Expr.need, Expr.toks]; simp; omega)
+      (by rw [Expr.cneed, Expr.need])
+  | .range a b => Bound.ofE rfl (by have := (bound a).n; have := (bound b).n; rw [Expr.need, Expr.toks]; simp; omega)
+      (by rw [Expr.cneed, Expr.need])
+  | .rel op a b => by
+    have ha := (bound a).n; have hb := (bound b).n
+    refine ⟨?_, fun lvl => ?_⟩
+    · rw [Expr.need, toks_rel]; simp [parenIf]; omega
+    · have := parenIf_length (decide (1 < lvl)) (a.toks 3 ++ relOpTok op :: b.toks 3)
+      rw [Expr.cneed, toks_rel]; simp at this; omega
+  | .and_ a b => by
+    have ha := (bound a).c 0; have hb := (bound b).cost 1
+    unfold cost at hb
+    refine ⟨?_, fun lvl => ?_⟩
+    · rw [Expr.need, toks_and]; simp [parenIf]; omega
+    · have := parenIf_length (decide (0 < lvl)) (a.toks 0 ++ .and_ :: b.toks 1)
+      rw [Expr.cneed, toks_and]; simp at this; omega
+  | .or_ a b => by
+    have ha := (bound a).c 0; have hb := (bound b).cost 1
+    unfold cost at hb
+    refine ⟨?_, fun lvl => ?_⟩
+    · rw [Expr.need, toks_or]; simp [parenIf]; omega
+    · have := parenIf_length (decide (0 < lvl)) (a.toks 0 ++ .or_ :: b.toks 1)
+      rw [Expr.cneed, toks_or]; simp at this; omega
+  | .filter e n args => by
+    have he := (bound e).cost 2; have ha := boundArgs args
+    unfold cost at he
+    obtain ⟨X, hX⟩ : ∃ X, X = ETok.ch 124 :: (if args.isEmpty then [ETok.ident n] else .keyword n :: (Expr.argsToks args).drop 1) :=
+      ⟨_, rfl⟩
+    have hL : Expr.needArgs args + 4 ≤ 8 * X.length := by
+      rw [hX]
+      cases args with
+      | nil => simp [Expr.needArgs]
+      | cons x xs => rw [Expr.argsToks] at ha ⊢; simp at ha ⊢; omega
+    refine ⟨?_, fun lvl => ?_⟩
+    · rw [Expr.need, toks_filter, ← hX]; simp [parenIf]; omega
+    · have := parenIf_length (decide (2 < lvl)) (e.toks 2 ++ X)
+      rw [Expr.cneed, toks_filter, ← hX]; simp only [List.length_append] at this; omega
+theorem boundArgs : (as : List Expr) → Expr.needArgs as ≤ 8 * (Expr.argsToks as).length
+  | [] => by simp [Expr.needArgs]
+  | a :: as => by
+    have := (bound a).n; have := boundArgs as
+    rw [Expr.needArgs, Expr.argsToks]; simp; omega
+end
+
+/-- the first token of an expression is a literal, an identifier or `(` -/
+def startsExpr : List ETok → Bool
+  | .lit _ :: _ => true
+  | .ident _ :: _ => true
+  | .ch b :: _ => b == 40
+  | _ => false
+
+theorem startsExpr_append {ts : List ETok} (h : startsExpr ts = true) (r : List ETok) : startsExpr (ts ++ r) = true := by
+  cases ts with
+  | nil => simp [startsExpr] at h
+  | cons t ts => cases t <;> simp_all [startsExpr]
+
+theorem startsExpr_parenIf (c : Bool) {ts : List ETok} (h : startsExpr ts = true) : startsExpr (parenIf c ts) = true := by
+  unfold parenIf; split
+  · rfl
+  · exact h
+
+theorem startsExpr_toks : (e : Expr) → (lvl : Nat) → startsExpr (e.toks lvl) = true
+  | .lit v, _ => by rw [Expr.toks]; rfl
+  | .var x, _ => by rw [Expr.toks]; rfl
+  | .prop e n, _ => by rw [Expr.toks]; exact startsExpr_append (startsExpr_toks e 3) _
+  | .index e i, _ => by rw [Expr.toks]; exact startsExpr_append (startsExpr_toks e 3) _
+  | .range a b, _ => by rw [Expr.toks]; rfl
+  | .rel op a b, lvl => by rw [toks_rel]; exact startsExpr_parenIf _ (startsExpr_append (startsExpr_toks a 3) _)
+  | .and_ a b, lvl => by rw [toks_and]; exact startsExpr_parenIf _ (startsExpr_append (startsExpr_toks a 0) _)
+  | .or_ a b, lvl => by rw [toks_or]; exact startsExpr_parenIf _ (startsExpr_append (startsExpr_toks a 0) _)
+  | .filter e n args, lvl => by rw [toks_filter]; exact startsExpr_parenIf _ (startsExpr_append (startsExpr_toks e 2) _)
+
+/-- **the parser on the canonical tokens of `e`**, with any fuel from `e.cneed + 2` on -/
+theorem parseCond_toks (e : Expr) (F : Nat) (r : List ETok) (hF : e.cneed + 2 ≤ F) (hs : stopC r = true) :
+    parseCond F (e.toks 0 ++ r) = some (e, r) := by
+  obtain ⟨g', hg', h⟩ := (compl e).C F F r (stopC_stopR hs) hF hF
+  obtain ⟨g'', rfl⟩ : ∃ k, g' = k + 1 := ⟨g' - 1, by omega⟩
+  rw [parseCond_eq, h, parseCondTail_stop _ _ _ hs]
+
+/-- … with the fuel `parseTokensE` computes from the number of tokens -/
+theorem parseTokensE_toks (e : Expr) : parseTokensE (e.toks 0 ++ [.ch 59]) = some (.expr e) := by
+  have hb := (bound e).c 0
+  have hp := parseCond_toks e (8 * (e.toks 0 ++ [ETok.ch 59]).length + 16) [.ch 59] (by simp; omega) (by rfl)
+  have hst := startsExpr_append (startsExpr_toks e 0) [.ch 59]
+  unfold parseTokensE
+  split
+  all_goals first
+    | (rename_i heq; rw [heq] at hst; simp [startsExpr] at hst; done)
+    | skip
+  rename_i heq
+  simp only [hp, endOk, if_true]
